@@ -403,6 +403,9 @@ def _r7(chk):
 
     r7 = chk.rule("C06.R7", "errors close: after any failed exchange (re-raised or swallowed by ignore_exc) the socket was closed, so the next call reconnects (= C01.R1)")
     report.include_rules(chk, r7, rules_C01, ("C01.R1",), "a failed exchange must leave self.sock None so that the next call opens a fresh connection")
+    from . import rules_C19
+
+    report.include_rules(chk, r7, rules_C19, ("C19.R3",), "a client that is dropped from a HashClient (server removed, node list rebuilt) is closed there: nobody else holds it, its socket would stay open")
 
 
 def exchange_functions(prog):
